@@ -119,3 +119,8 @@ Proof.
   - intros Hb Hw. rewrite Hb, Hw in H4. cbn [negb andb orb] in H4. apply andb_prop in H4 as [Ha Hs].
     split; [exact (accepted_sound _ _ Ha)|exact (status_raised_sound _ _ Hs)].
 Qed.
+
+Lemma spec_c_b_sound s y v : spec_c_b s y v = true -> spec_c s y v.
+Proof.
+  unfold spec_c_b, spec_c. intros H b Hb. rewrite Hb in H. apply spec_d_b_sound. exact H.
+Qed.
